@@ -82,6 +82,10 @@ func (m *c09mon) Check(s *sim.Sim, st *sim.Step) []*sim.Violation {
 				}
 			}
 		}
+		if rec.Wrote && !flushed(rec) && rec.FaultsFired == 0 {
+			// the response went out (whatever its status: a 304 is a response too) and the wipe did not
+			return append(vs, vio("C09", "expired-request-answered-without-delivering-the-wipe|"+fmt.Sprint(rec.Status), "request after an idle gap of %s (> ExpireAfter %s) was answered with %d but no session change was delivered with it", g, E, rec.Status))
+		}
 		if flushed(rec) {
 			if _, sawWipe, _ := keysPutAfterDelAll(rec); !sawWipe {
 				_, stamped := rec.SessIn["last_action"]
@@ -111,6 +115,9 @@ func (m *c09mon) Check(s *sim.Sim, st *sim.Step) []*sim.Violation {
 			if rec.Probe.UID != uid {
 				vs = append(vs, vio("C09", "live-session-served-as-unauthenticated", "request after an idle gap of %s (ExpireAfter %s) was not served as %q", g, E, uid))
 			}
+		}
+		if rec.Wrote && !flushed(rec) && rec.FaultsFired == 0 {
+			vs = append(vs, vio("C09", "deadline-not-pushed-forward|response-without-session-change|"+fmt.Sprint(rec.Status), "live request answered with %d but the refreshed last_action stamp was not delivered with it", rec.Status))
 		}
 		if flushed(rec) && rec.SessOut["uid"] == uid {
 			want := rec.Now.UTC().Format(time.RFC3339)
